@@ -292,6 +292,14 @@ def one_tree(tspec, relative_style, acc, rnd, only_mp=None, force_excl=None, for
             y = os.path.basename(rnd.choice(pyfiles))[:-3]
             x = os.path.basename(rnd.choice(dirs_nonroot))
             pats = force_regex or [".*/(" + _re.escape(x) + "|zz_no)$", r"(?=(.*/))\1" + _re.escape(y) + r"\.py$"]
+            if not force_regex and not tspec.get("symlinks") and rnd.random() < 0.4:
+                # (not on trees with a symlinked package: whether a file reached through the link is matched under the
+                # link's or the target's spelling is something no property states)
+                # a pattern that ends in a path separator: everything BELOW that directory goes, the directory itself and
+                # its prefix siblings (build/ vs build_tools/, builder.py) stay
+                x2 = os.path.basename(rnd.choice(dirs_nonroot))
+                pats = [".*/" + _re.escape(x2) + "/"] + (pats[1:] if rnd.random() < 0.5 else [])
+                acc.count("regex_exclusions_ending_in_a_separator")
             c6 = dict(case, regex_excl=pats)
             HUB.case = c6
             get_evaluable_architecture(root, root, exclusions=(), regex_exclusions=tuple(pats))
@@ -329,7 +337,7 @@ def floors(acc, tier):
     why = []
     if acc.counters["scans_judged"] < 200:
         why.append(f"only {acc.counters['scans_judged']} scans judged")
-    for c, n in (("subscan_equivalences", 100), ("entry_point_equivalences", 100), ("prefix_sibling_trees", 10), ("via_prefix_statements", 10), ("include_mode_scans", 30), ("sibling_directory_exclusion_scans", 10), ("root_named_package_scans", 20), ("trees_with_symlinked_package", 10), ("symlinked_root_scans", 30), ("regex_exclusion_scans_with_groups_and_backreferences", 10), ("path_spelling_variants", 100), ("scans_with_patterns_in_another_container", 20), ("modules_accessor_reads", 100)):
+    for c, n in (("subscan_equivalences", 100), ("entry_point_equivalences", 100), ("prefix_sibling_trees", 10), ("via_prefix_statements", 10), ("include_mode_scans", 30), ("sibling_directory_exclusion_scans", 10), ("root_named_package_scans", 20), ("trees_with_symlinked_package", 10), ("symlinked_root_scans", 30), ("regex_exclusion_scans_with_groups_and_backreferences", 10), ("path_spelling_variants", 100), ("scans_with_patterns_in_another_container", 20), ("modules_accessor_reads", 100), ("regex_exclusions_ending_in_a_separator", 10)):
         if acc.counters[c] < n:
             why.append(f"{c}: only {acc.counters[c]}")
     if acc.counters["scan_model_errors"]:
